@@ -140,7 +140,7 @@ def snapshot(c):
     except Exception as e:  # compile error is part of the observable state
         ub = "ERR " + type(e).__name__
     h = c.heralds
-    return Snap((c.n_modes, c.input_modes, tuple(sorted(h["input"].items())), tuple(sorted(h["output"].items()))), ub)
+    return Snap((c.n_modes, c.input_modes, tuple(sorted(h["input"].items())), tuple(sorted(h["output"].items())), tuple(sorted(c._internal_modes))), ub)
 
 
 class Snap:
@@ -159,6 +159,10 @@ class Snap:
 
     def __ne__(self, other):
         return not self.__eq__(other)
+
+    def core(self):
+        """what C09 says a rewrite keeps: mode count, input size, heralds, unitary - not which modes are hidden"""
+        return Snap(self.disc[:4], self.u)
 
     __hash__ = None
 
@@ -557,7 +561,7 @@ def replay(prog, objs, expected_circ=None, expected_sem=None, params=NOPARAMS, p
             if o != tgt and before[o] != after[o]:
                 out.append(("arg_mutated", i, "call %s changed object %d (not its target)" % (ev, o)))
         if ev[1] in ("unpack", "compress", "nonadj"):
-            if before[tgt] != after[tgt]:
+            if before[tgt].core() != after[tgt].core():
                 out.append(("rewrite_changed", i, "%s changed the observable state of object %d" % (ev[1], tgt)))
             spec = objs[tgt]._get_circuit_spec()
             if ev[1] == "unpack" and has_group(spec):
